@@ -207,6 +207,11 @@ def build(ctx):
                                     extra_flags=["--no-standard-checks"],
                                     desc="flat group numInGroup=%s blockLength=%s: size_bytes for header values over the whole type range" % (n, b),
                                     bounds={"numInGroup": "full %s range" % n, "blockLength": "full %s range" % b, "product": "< 2^48", "std": "c++" + std}))
+        # nested group with a uint8 numInGroup: size_bytes for EVERY entry count 0..255 (entries of minimal size), i.e. also beyond the range of the signed difference_type
+        un = ctx.lower("c12n", c12.cpp([], ["uint8"]), std=std, mode="unchecked", incs=[incd])
+        hs.append(P.Harness("nested_uint8_many_size_cxx%s" % std, c12.nested_many_harness(un), [un], unwind=260, backends=["minisat", "kissat"], cap=ctx.q(600, 1200), defines=["VERIF_WHICH=0"],
+                            meta={"big_unwind": 300}, desc="nested group (uint8 numInGroup): size() / size_bytes() == header + sum of entry sizes for every entry count 0..255",
+                            bounds={"numInGroup": "0..255 (symbolic)", "entries": "wire blockLength 0, empty <data>", "std": "c++" + std}))
         sel = [i for i in c13.insts() if i[1] == "char"]
         u = ctx.lower("c13", c13.cpp(sel), std=std, mode="unchecked")
         for inst in sel:
